@@ -3,6 +3,8 @@ package main
 // C16: announce traversals against a simulated network at the Conn boundary.
 
 import (
+	"sync/atomic"
+	"runtime"
 	"bytes"
 	"fmt"
 	"math/rand"
@@ -37,11 +39,115 @@ type annObs struct {
 }
 
 func runC16(r *Run) {
-	r.Result.Rule = "scenario = simulated network of 4..30 nodes answering get_peers with distinct tokens / without token / with values / with an error / not at all, replies released in PRNG order; options crossed (port / implied port / no announce / scrape), consumer reading Peers or not, Close or StopTraversing at a random point or none; every announce_peer the server emits is decoded and compared with the token that very node issued; non-trivial = run in which at least one announce_peer is sent"
+	r.Result.Rule = "scenario = simulated network of 4..30 nodes answering get_peers with distinct tokens / without token / with values / with an error / not at all, replies released in PRNG order; options crossed (port / implied port / no announce / scrape), consumer reading Peers or not, Close or StopTraversing at a random point or none; every announce_peer the server emits is decoded and compared with the token that very node issued; + Close/StopTraversing issued during a slow blocklist look-up made by the node filter under the traversal lock (multi-P and single-P); non-trivial = run in which at least one announce_peer is sent"
 	n := r.n(100, 2500)
 	for i := 0; i < n; i++ {
 		r.c16Scenario(i)
 	}
+	for i := 0; i < r.n(40, 400); i++ {
+		r.c16CloseAtFilter(i)
+	}
+}
+
+// Close (or StopTraversing) issued at the moment the traversal consults the server's blocklist through
+// its node filter, i.e. while the traversal holds its own lock and the last query is being merged; the
+// look-up is slow (a large or remote list), so the stop waiter queues on the traversal lock. Whatever
+// the hand-over order, the announce must finish and Peers must be closed. Half of the rounds run on a
+// single P, which makes the lock hand-over deterministic.
+func (r *Run) c16CloseAtFilter(i int) {
+	rng := r.rng
+	if i%2 == 1 {
+		defer runtime.GOMAXPROCS(runtime.GOMAXPROCS(1))
+	}
+	conn := newFakeConn(nil)
+	cfg := baseConfig(conn)
+	cfg.QueryResendDelay = func() time.Duration { return 150 * time.Millisecond }
+	bl := &rangeList{}
+	cfg.IPBlocklist = bl
+	s, err := dht.NewServer(cfg)
+	if err != nil {
+		panic(err)
+	}
+	defer s.Close()
+	target := r.randID()
+	seed := udp(net.IP{198, 51, 100, byte(1 + rng.Intn(200))}, 4000)
+	seedID := r.structuredID(target)
+	if seedID == ([20]byte{}) || seedID == s.ID() {
+		seedID = r.randID()
+	}
+	var nbr4, nbr6 []byte
+	slow := map[string]bool{}
+	for j := 0; j < 1+rng.Intn(3); j++ {
+		ip := net.IP{198, 51, 101, byte(1 + j)}
+		slow[string(ip.To16())] = true
+		nbr4 = append(nbr4, compactNode(r.structuredID(target), ip, 4100+j)...)
+	}
+	if rng.Intn(2) == 0 {
+		ip := r.randIP(1)
+		slow[string(net.IP(ip).To16())] = true
+		nbr6 = compactNode(r.structuredID(target), ip, 4200)
+	}
+	conn.onWrite = func(w written) {
+		d := parseDgram(w)
+		if !d.ok || d.y != "q" || !sameUDP(w.Addr, seed) {
+			return
+		}
+		rd := bD("id", bB(seedID[:]), "token", bS("tok"))
+		if d.q == "get_peers" {
+			rd.set("nodes", bB(nbr4))
+			if nbr6 != nil {
+				rd.set("nodes6", bB(nbr6))
+			}
+		}
+		conn.inject(mkReply(string(d.t), rd).enc(), seed)
+	}
+	defer func() { conn.onWrite = nil }()
+	s.AddNode(nodeInfo(seedID, seed))
+	var ann atomic.Pointer[dht.Announce]
+	var fired atomic.Bool
+	useStop := rng.Intn(3) == 0
+	dwell := time.Duration(1200+rng.Intn(1500)) * time.Microsecond
+	probe := func(ip net.IP) {
+		if !slow[string(ip.To16())] {
+			return
+		}
+		if a := ann.Load(); a != nil && !fired.Swap(true) {
+			go func() {
+				if useStop {
+					a.StopTraversing()
+				} else {
+					a.Close()
+				}
+			}()
+		}
+		time.Sleep(dwell) // the slow look-up, under the traversal's lock
+	}
+	bl.probe.Store(&probe)
+	defer bl.probe.Store(nil)
+	a, err := s.AnnounceTraversal(target, dht.AnnouncePeer(dht.AnnouncePeerOpts{Port: 6881}))
+	if err != nil {
+		r.violation("AnnounceTraversal failed with seeds present: "+err.Error(), nil)
+		return
+	}
+	ann.Store(a)
+	go func() {
+		for range a.Peers {
+		}
+	}()
+	what := map[bool]string{true: "StopTraversing", false: "Close"}[useStop]
+	replay := map[string]interface{}{"target": hx(target[:]), "events": []string{
+		fmt.Sprintf("seed %s answers get_peers with a token and %d+%d contacts", seed, len(nbr4)/26, len(nbr6)/38),
+		fmt.Sprintf("%s() is called when the node filter first looks one of them up in the blocklist; each look-up takes %v", what, dwell),
+		fmt.Sprintf("single P: %v", i%2 == 1)}}
+	select {
+	case <-a.Finished():
+	case <-time.After(5 * time.Second):
+		r.violation(fmt.Sprintf("announce never finishes (%s during a slow blocklist look-up under the traversal lock; fired=%v)", what, fired.Load()), replay)
+		return
+	}
+	r.hist(fmt.Sprintf("close-at-filter/%s/fired=%v/singleP=%v", what, fired.Load(), i%2 == 1))
+	r.count(fmt.Sprintf("caf/%d", i), fired.Load())
+	r.Result.TracesValidated++
 }
 
 func (r *Run) c16Scenario(i int) {
